@@ -60,6 +60,12 @@ def r_lints_record_owner(r, prog):
             r.ok('%s in %s carries no scope' % ('/'.join(vs), f.path), NO_SCOPE_LINTS[vs[0]])
             continue
         if 'set_scope(' not in ex:
+            # the lint may be built, scope included, by a helper that hands back the finished diagnostic
+            hosts = [x for n in returns_lint if (n + '(') in ex for x in prog.fns.values() if x.name == n and x.crate.tag == 'slicec'
+                     and any(y.name() == 'set_scope' for y in x.calls())]
+            if hosts:
+                f = hosts[0]
+        if 'set_scope(' not in ex and not (f is not c.fn):
             r.finding('lint-without-scope:%s:%s' % ('/'.join(vs), f.path), c.span,
                       'lint %s is pushed in %s without set_scope: an allow attribute on its element can never be consulted' % ('/'.join(vs), f.path))
             continue
